@@ -168,3 +168,40 @@ Proof.
   rewrite Hmis.
   rewrite (compute_base_sole _ _ _ _ _ Hl Hin HF Hs). reflexivity.
 Qed.
+
+(* ---------------- legacy profiles: massageMappings ---------------- *)
+Definition emap_of_gm (m : gmapping) : emap :=
+  {| em_start := gm_start m; em_limit := gm_limit m; em_offset := gm_offset m; em_koff := None |}.
+
+(* two adjacent map entries that are pieces of ONE segment image are merged into a piece of that
+   image: start and file offset of the first part, limit of the second (so start - offset, hence
+   the base computed for the merged mapping, is that of the image) *)
+Lemma merge_adjacent_piece_lemma : forall lm m img,
+  pieceb (emap_of_gm lm) img = true -> pieceb (emap_of_gm m) img = true -> gm_limit lm = gm_start m ->
+  pieceb (emap_of_gm (merge_adjacent lm m)) img = true /\
+  gm_start (merge_adjacent lm m) - gm_offset (merge_adjacent lm m) = gm_start lm - gm_offset lm /\
+  gm_start (merge_adjacent lm m) - gm_offset (merge_adjacent lm m) = gm_start m - gm_offset m.
+Proof.
+  intros lm m img Hl Hm Hadj.
+  unfold pieceb, emap_of_gm, merge_adjacent in *. cbn [em_start em_limit em_offset em_koff gm_start gm_limit gm_offset] in *.
+  repeat split; lia.
+Qed.
+
+(* and such entries ARE adjacent for the code (same file): consecutive pieces have consistent offsets *)
+Lemma pieces_adjacent_lemma : forall lm m img,
+  pieceb (emap_of_gm lm) img = true -> pieceb (emap_of_gm m) img = true -> gm_limit lm = gm_start m ->
+  gm_name lm = gm_name m -> gm_buildid lm = gm_buildid m ->
+  0 <= gm_offset lm -> gm_offset lm + (gm_limit lm - gm_start lm) < two64 -> 0 <= gm_limit lm - gm_start lm < two64 ->
+  adjacent lm m = true.
+Proof.
+  intros lm m img Hl Hm Hadj Hn Hb Ho Hsz Hlen.
+  unfold adjacent. rewrite Hn, Hb, String.eqb_refl, orb_true_r.
+  assert (Hname : match gm_name m, gm_name m with Some a, Some b => a =? b | _, _ => true end = true).
+  { destruct (gm_name m); [apply Z.eqb_refl | reflexivity]. }
+  rewrite Hname. cbn [andb].
+  unfold pieceb, emap_of_gm in *. cbn [em_start em_limit em_offset em_koff] in *.
+  unfold uadd, usub, wrap_u64.
+  rewrite (Z.mod_small (gm_limit lm - gm_start lm)) by lia.
+  rewrite (Z.mod_small (gm_offset lm + (gm_limit lm - gm_start lm))) by lia.
+  lia.
+Qed.
